@@ -83,7 +83,7 @@ def _run(ctx, replay):
     env = {k: v for k, v in os.environ.items() if not k.startswith('LC_') and k != 'LANG'}
     env.update(TSAN_ENV)
     stats = dict(rounds=0, calls=0, threads=[], tsan_reports=0, serial_mismatches=0, distinct_ops=0, locale_runs=0, locale_tsan=0, locale_changed=0)
-    viol = []; all_ops = set(); samples = []
+    viol = []; all_ops = set(); samples = []; ok_texts = set()
 
     def one_round(lines, sd, label):
         path = ctx.sc.path('script_%d.txt' % stats['rounds'])
@@ -113,8 +113,14 @@ def _run(ctx, replay):
             d = [(x, y) for x, y in zip(a, b) if x != y]
             stats['serial_mismatches'] += len(d) or 1
             viol.append(dict(kind='serial', what='a call returned something else than in the serial run: %s | serial: %s' % (d[0] if d else ('(length)', '')), lines=lines, seed=sd, label=label))
-        elif not samples:
-            samples.append(dict(script_line=lines[0], result=r.stdout.splitlines()[0][:160]))
+        else:
+            byt = {}
+            for l in lines:
+                t_, o_ = l.split(' ', 1); byt.setdefault(int(t_), []).append(o_)
+            for ol in r.stdout.splitlines():
+                m = re.match(r'T (\d+) (\d+) (.*)', ol)
+                if m and not re.search(r' e:\d|:~|bad-op|unparsed|noerr', m.group(3)): ok_texts.add(byt[int(m.group(1))][int(m.group(2))])
+            if not samples: samples.append(dict(script_line=lines[0], result=r.stdout.splitlines()[0][:160]))
 
     if replay:
         txt = open(replay).read()
@@ -126,6 +132,11 @@ def _run(ctx, replay):
             if viol: break
     else:
         plan = [(8, 220), (16, 160), (12, 200), (16, 120), (8, 300), (10, 200), (16, 200), (14, 150)] if ctx.tier == 'quick' else [(8, 600), (16, 450), (12, 500), (10, 450), (16, 700)] * 40
+        cdir = os.path.join(sl.VERIF, 'corpus')                      # corpus first
+        for fn in sorted(os.listdir(cdir)) if os.path.isdir(cdir) else []:
+            if fn.startswith(ID + '-') and fn.endswith('.lines'):
+                txt = open(os.path.join(cdir, fn)).read()
+                one_round([l for l in txt.splitlines() if l and not l.startswith('#')], 1, 'corpus ' + fn)
         for i, (nt, nops) in enumerate(plan):
             one_round(make_script(ctx.rng, meta, nt, nops), ctx.rng.getrandbits(31), 'round %d (%d threads)' % (i, nt))
         if explain:       # the footprint / MT-safety theorem is broken: concentrate 16 threads on the offending entries
@@ -191,10 +202,10 @@ def _run(ctx, replay):
                checker_cmd='cd lean-sched && lake build %s  (then `#print axioms` on each theorem; thorough: leanchecker)' % MODULE,
                trusted_base=sl.TRUSTED_BASE + ['ThreadSanitizer (clang-14) as the observer of the tie: it sees the library and the harness, not the inside of libc'],
                theorems=[dict(name=th, axioms=axioms.get(th)) for th in theorems],
-               traces_validated_against_impl=stats['calls'], evaluations=stats['calls'] + stats['locale_runs'], distinct_nontrivial=stats['distinct_ops'],
+               traces_validated_against_impl=stats['calls'], evaluations=stats['calls'] + stats['locale_runs'], distinct_nontrivial=len(ok_texts), distinct_calls=stats['distinct_ops'],
                rule='seeded scripts for 8-16 threads over every thread-safe entry point (tools/xrlops.py; failing calls that allocate error objects, _CP functions that '
                     'parse and free, crystal lookups that copy, catalogue lookups, error API), executed concurrently under ThreadSanitizer and serially; per-thread result '
-                    'vectors must be identical and TSan silent.  distinct_nontrivial = distinct call texts executed.  Separately: the setlocale search (16 parser threads '
+                    'vectors must be identical and TSan silent.  distinct_nontrivial = distinct call texts (function + arguments) executed concurrently that agreed with the serial run and produced a value/object rather than an error.  Separately: the setlocale search (16 parser threads '
                     'vs one application thread holding LC_NUMERIC=C.utf8)',
                samples=samples + [dict(finding=f['what'], key=k[0]) for f, k in rep['known']] + [dict(violation=v['what']) for v in viol[:2]],
                thread_stats=stats, lean_verdicts=ev, public_functions_exercised=len(ex),
